@@ -75,7 +75,7 @@ def disturb(ta, pre) -> None:
 def load_case(case: Dict[str, Any], **kw):
     files = htaio.write_case(case, gz=kw.pop("gz", False))
     try:
-        ta = htaio.load(files, **kw)
+        ta = htaio.load(files, ctor=case.get("ctor"), **kw)
     finally:
         pass
     ta.t._verif_file_names = {int(r): {i: (str(e.get("name", "")), str(e.get("cat"))) for i, e in enumerate(ev)
